@@ -999,6 +999,11 @@ class Serial(Formatter, fmt="%n"):
         """Return a string number value (positive integer)."""
         return self.number  # type: ignore[no-any-return]
 
+    def __hash__(self) -> int:
+        # NOTE: ``self.string`` keeps the zeros of the parsed text, but equal
+        #   serial objects must have equal hashes.
+        return hash(str(self.value))
+
     @property
     def priorities(
         self,
@@ -1938,6 +1943,11 @@ class Version(Formatter, level=4, fmt="%m_%n_%c"):
         if self.local:
             _release = f"{_release}+{self.local}"
         return _release
+
+    def __hash__(self) -> int:
+        # NOTE: ``self.string`` keeps the spelling of the parsed text, but equal
+        #   version objects must have equal hashes.
+        return hash(self.value)
 
     def validate(self) -> bool:
         """Validate method that validate the version string that was built
